@@ -34,8 +34,9 @@ def where(s: TreeSpec, g: GDecl) -> str:
 def run(rep: Report, tier: str, seed: int) -> None:
     specs = enumerate_trees(tier)
     rep.rule = (
-        "trees: one module at depth 1 or 2 (module and sub-package public or private), declaration-letter subsets of size<=2 over 7 letters"
-        " (public/private function, public class with 14 member kinds, private class, enum, private enum, exception class), declarations in __init__, "
+        "trees: one module at depth 1 or 2 (module and sub-package public or private), declaration-letter subsets of size<=2 over 9 letters"
+        " (public/private function, public class with 21 member kinds incl. tuple-assigned attributes, overloaded and static overloaded methods, property with setter; private class, enum, private enum, exception class, overloaded function, generic class with type-variable typed members),"
+        " an equally named module in a descendant package, an unrelated sibling package that imports a declaration, declarations in __init__, "
         "10 re-export forms at every ancestor __init__ (quick: one re-export, chains, same form twice; thorough: all pairs + larger subsets); distinct = distinct tree label"
     )
     by_tid = {s.tid: s for s in specs}
